@@ -214,7 +214,7 @@ def check_driver(ctx, u, f, lab, worker_name):
                 init_, cv_, cond_, inc_, lb_ = for_parts(lp_)
                 zd_ = next((v for v in walk(init_) if v.get('kind') == 'VarDecl'), None) if init_ else None
                 eb_ = [c for c in walk(lb_) if c.get('kind') == 'CXXMemberCallExpr' and call_name(c) == 'emplace_back' and canon(member_call_object(c)) == 'threads']
-                if zd_ is not None and len(eb_) == 1 and kids(zd_) and int_value(kids(zd_)[-1]) == 0 and cond_ is not None and nf(cond_) == '(%s < num_threads)' % zd_['name'] and inc_ is not None and nf(inc_) in ('(%s++)' % zd_['name'], '++%s' % zd_['name']):
+                if zd_ is not None and len(eb_) == 1 and kids(zd_) and int_value(kids(zd_)[-1]) == 0 and cond_ is not None and nf(cond_) in ('(%s < num_threads)' % zd_['name'], '(%s != num_threads)' % zd_['name'], '(num_threads > %s)' % zd_['name'], '(num_threads != %s)' % zd_['name']) and inc_ is not None and nf(inc_) in ('(%s++)' % zd_['name'], '++%s' % zd_['name']):
                     a_ = call_args(eb_[0])
                     ok = nf(a_[-1]) == zd_['name'] and any((ref_decl(x) or {}).get('name') == worker_name for x in walk(a_[0])) and any('ref(current_value)' in nf(x) for x in a_) and any('ref(result_value)' in nf(x) for x in a_)
                     mk = [lp_]
@@ -231,6 +231,14 @@ def check_driver(ctx, u, f, lab, worker_name):
                     in_ is not None and nf(in_) in ('(%s++)' % zd2['name'], '(++%s)' % zd2['name'], '++%s' % zd2['name'])
                 on_elem = len(jn) == 1 and nf(member_call_object(jn[0])) in ('threads[%s]' % (zd2 or {}).get('name'), 'threads.at(%s)' % (zd2 or {}).get('name'))
                 if full_ and on_elem and not any(x_.get('kind') in ('ReturnStmt', 'BreakStmt', 'ContinueStmt', 'CXXThrowExpr') for x_ in walk(lb2)):
+                    joins = [s_]
+    if not joins:
+        # drain form: while (!threads.empty()) { threads.back().join(); threads.pop_back(); }
+        for s_ in stmts_of(body):
+            if s_.get('kind') == 'WhileStmt' and nf(while_parts(s_)[0]) in ('!threads.empty()', '(threads.size() > 0)', '(0 < threads.size())', '(threads.size() != 0)'):
+                lb3 = while_parts(s_)[1]
+                st3 = [nf(strip(x_)) for x_ in stmts_of(lb3)]
+                if st3 in (['threads.back().join()', 'threads.pop_back()'], ['threads.front().join()', 'threads.erase(threads.begin())']):
                     joins = [s_]
     if not joins:
         # a helper that joins every element of the vector it is given
@@ -252,6 +260,9 @@ def check_driver(ctx, u, f, lab, worker_name):
                     if lps_ and full_ and not any(x_.get('kind') in ('ReturnStmt', 'BreakStmt', 'ContinueStmt', 'CXXThrowExpr') for x_ in walk(hb)):
                         joins = [s_]
     rets = [r for r in walk(body) if r.get('kind') == 'ReturnStmt']
+    # a return before any worker exists (an empty range handled up front) leaves nothing to join
+    rets_early = [r for r in rets if mk and r['_off'] < mk[0]['_off']]
+    rets = [r for r in rets if r not in rets_early]
     okj = len(joins) == 1 and bool(mk) and joins[0]['_off'] > mk[0]['_off'] and all(r['_off'] > joins[0]['_off'] for r in rets)
     early = [x for x in walk(body) if x.get('kind') in ('ReturnStmt', 'CXXThrowExpr') and mk and mk[0]['_off'] < x['_off'] < (joins[0]['_off'] if joins else 0)]
     ctx.check(okj and not early, R, lab + '|join-all', joins[0] if joins else f, 'every worker is joined before the call returns', 'a return or throw can leave workers running (not every thread is joined before returning)')
@@ -259,7 +270,11 @@ def check_driver(ctx, u, f, lab, worker_name):
     rv = next((v for v in walk(body) if v.get('kind') == 'VarDecl' and v.get('name') == 'result_value'), None)
     oki = cv is not None and rv is not None and 'start_value' in nf(kids(cv)[-1]) and 'end_value' in nf(kids(rv)[-1]) and 'std::atomic<' in qtype(cv) and 'std::atomic<' in qtype(rv)
     ctx.check(oki, 'C16-R2', lab + '|initial-values', cv or f, 'cursor starts at start_value; result starts at end_value (returned when nothing hit)', 'initial cursor/result values changed')
-    ctx.check(len(rets) == 1 and nf(kids(rets[0])[0]).startswith('result_value'), 'C16-R2', lab + '|returns-result', rets[0] if rets else f, 'returns the result atomic after the joins', 'the return value is not result_value')
+    early_ok = all(kids(r) and nf(kids(r)[0]) == 'end_value' and any(relation(n_, p_) and {nf(relation(n_, p_)[0]), nf(relation(n_, p_)[2])} == {'start_value', 'end_value'} for n_, p_ in atoms(path_facts(r))) for r in rets_early)
+    if rets_early and not early_ok:
+        ctx.undecided('C16-R2', lab + '|returns-result', rets_early[0], 'an early return before the workers are created returns something other than end_value for an empty range')
+    else:
+        ctx.check(len(rets) == 1 and nf(kids(rets[0])[0]) in ('result_value', 'result_value.load()', 'result_value.operator unsigned long()', 'result_value.operator unsigned int()') or (len(rets) == 1 and nf(kids(rets[0])[0]).startswith('result_value')), 'C16-R2', lab + '|returns-result', rets[0] if rets else f, 'returns the result atomic after the joins', 'the return value is not result_value')
 
 
 def run(ctx):
